@@ -16,7 +16,7 @@ RULE = ("random configuration histories on an ACK-capable reference device where
 
 def main(run):
     run.regen()
-    run.prove()
+    run.prove(extra_targets=["proofs/Pinned_comm.vo"])
     model_ok = run.build_model()
     run.run_findings()
     if model_ok:
